@@ -37,61 +37,230 @@ fn any_caps() -> TerminalCaps {
     }
 }
 
-//# kind=complete tier=quick props=C05 fns=TTYEncoder::encode,TTYEncoder::kitty_level | encode never panics / overflows for any numeric command with any parameter values (CursorTo, CursorMove, Scroll, ScrollRegion, EraseChars, DecModeSet/Get, KeyboardLevel, Color query/palette index) under every capability setting
+
+//# kind=complete tier=quick props=C05 fns=TTYEncoder::encode,TTYEncoder::kitty_level | encode never panics / overflows: CursorTo with any row/col, under every capability setting
 #[kani::proof]
 #[kani::unwind(4)]
-fn c05_encode_numeric_nopanic() {
+fn c05_nopanic_cursor_to() {
     let mut enc = TTYEncoder::new(any_caps());
     let mut out = Sink::new();
-    let k: u8 = kani::any();
-    kani::assume(k < 9);
-    let cmd = match k {
-        0 => TerminalCommand::CursorTo(Position { row: kani::any(), col: kani::any() }),
-        1 => TerminalCommand::CursorMove { row: kani::any(), col: kani::any() },
-        2 => TerminalCommand::Scroll(kani::any()),
-        3 => TerminalCommand::ScrollRegion { start: kani::any(), end: kani::any() },
-        4 => TerminalCommand::EraseChars(kani::any()),
-        5 => TerminalCommand::DecModeSet { enable: kani::any(), mode: any_mode() },
-        6 => TerminalCommand::DecModeGet(any_mode()),
-        7 => TerminalCommand::KeyboardLevel(kani::any()),
-        _ => TerminalCommand::Color { name: TerminalColor::Palette(kani::any()), color: None },
-    };
-    let r = enc.encode(&mut out, cmd);
+    let r = enc.encode(&mut out, TerminalCommand::CursorTo(Position { row: kani::any(), col: kani::any() }));
     assert!(r.is_ok());
-    kani::cover!(k == 1);
+    kani::cover!(true);
 }
 
-fn literal_cmd(k: u8) -> (TerminalCommand, &'static [u8]) {
-    // oracle: ECMA-48 / xterm ctlseqs / VT510 manual
-    match k {
-        0 => (TerminalCommand::CursorGet, b"\x1b[6n"),        // DSR 6: report cursor position
-        1 => (TerminalCommand::CursorSave, b"\x1b7"),         // DECSC
-        2 => (TerminalCommand::CursorRestore, b"\x1b8"),      // DECRC
-        3 => (TerminalCommand::EraseLineRight, b"\x1b[K"),    // EL 0
-        4 => (TerminalCommand::EraseLineLeft, b"\x1b[1K"),    // EL 1
-        5 => (TerminalCommand::EraseLine, b"\x1b[2K"),        // EL 2
-        6 => (TerminalCommand::EraseScreen, b"\x1b[2J"),      // ED 2
-        7 => (TerminalCommand::FaceGet, b"\x1bP$qm\x1b\\"),   // DECRQSS for SGR
-        8 => (TerminalCommand::Reset, b"\x1bc"),              // RIS
-        _ => (TerminalCommand::Raw(Vec::new()), b""),
-    }
+//# kind=complete tier=quick props=C05 fns=TTYEncoder::encode,TTYEncoder::kitty_level | encode never panics / overflows: CursorMove with any signed row/col (incl. i32::MIN), under every capability setting
+#[kani::proof]
+#[kani::unwind(4)]
+fn c05_nopanic_cursor_move() {
+    let mut enc = TTYEncoder::new(any_caps());
+    let mut out = Sink::new();
+    let r = enc.encode(&mut out, TerminalCommand::CursorMove { row: kani::any(), col: kani::any() });
+    assert!(r.is_ok());
+    kani::cover!(true);
 }
 
-//# kind=complete tier=quick props=C05 fns=TTYEncoder::encode | parameterless commands emit exactly their ECMA-48/xterm byte sequence (CursorGet, CursorSave/Restore, EL 0/1/2, ED 2, DECRQSS m, RIS) under every capability setting
+//# kind=complete tier=quick props=C05 fns=TTYEncoder::encode,TTYEncoder::kitty_level | encode never panics / overflows: Scroll with any signed count (incl. i32::MIN), under every capability setting
+#[kani::proof]
+#[kani::unwind(4)]
+fn c05_nopanic_scroll() {
+    let mut enc = TTYEncoder::new(any_caps());
+    let mut out = Sink::new();
+    let r = enc.encode(&mut out, TerminalCommand::Scroll(kani::any()));
+    assert!(r.is_ok());
+    kani::cover!(true);
+}
+
+//# kind=complete tier=quick props=C05 fns=TTYEncoder::encode,TTYEncoder::kitty_level | encode never panics / overflows: ScrollRegion with any start/end, under every capability setting
+#[kani::proof]
+#[kani::unwind(4)]
+fn c05_nopanic_scroll_region() {
+    let mut enc = TTYEncoder::new(any_caps());
+    let mut out = Sink::new();
+    let r = enc.encode(&mut out, TerminalCommand::ScrollRegion { start: kani::any(), end: kani::any() });
+    assert!(r.is_ok());
+    kani::cover!(true);
+}
+
+//# kind=complete tier=quick props=C05 fns=TTYEncoder::encode,TTYEncoder::kitty_level | encode never panics / overflows: EraseChars with any count, under every capability setting
+#[kani::proof]
+#[kani::unwind(4)]
+fn c05_nopanic_erase_chars() {
+    let mut enc = TTYEncoder::new(any_caps());
+    let mut out = Sink::new();
+    let r = enc.encode(&mut out, TerminalCommand::EraseChars(kani::any()));
+    assert!(r.is_ok());
+    kani::cover!(true);
+}
+
+//# kind=complete tier=quick props=C05 fns=TTYEncoder::encode,TTYEncoder::kitty_level | encode never panics / overflows: DecModeSet for every mode, both directions (incl. the alt-screen keyboard-level bracketing), under every capability setting
+#[kani::proof]
+#[kani::unwind(4)]
+fn c05_nopanic_dec_mode_set() {
+    let mut enc = TTYEncoder::new(any_caps());
+    let mut out = Sink::new();
+    let r = enc.encode(&mut out, TerminalCommand::DecModeSet { enable: kani::any(), mode: any_mode() });
+    assert!(r.is_ok());
+    kani::cover!(true);
+}
+
+//# kind=complete tier=quick props=C05 fns=TTYEncoder::encode,TTYEncoder::kitty_level | encode never panics / overflows: DecModeGet for every mode, under every capability setting
+#[kani::proof]
+#[kani::unwind(4)]
+fn c05_nopanic_dec_mode_get() {
+    let mut enc = TTYEncoder::new(any_caps());
+    let mut out = Sink::new();
+    let r = enc.encode(&mut out, TerminalCommand::DecModeGet(any_mode()));
+    assert!(r.is_ok());
+    kani::cover!(true);
+}
+
+//# kind=complete tier=quick props=C05 fns=TTYEncoder::encode,TTYEncoder::kitty_level | encode never panics / overflows: KeyboardLevel with any level, under every capability setting
+#[kani::proof]
+#[kani::unwind(4)]
+fn c05_nopanic_keyboard_level() {
+    let mut enc = TTYEncoder::new(any_caps());
+    let mut out = Sink::new();
+    let r = enc.encode(&mut out, TerminalCommand::KeyboardLevel(kani::any()));
+    assert!(r.is_ok());
+    kani::cover!(true);
+}
+
+//# kind=complete tier=quick props=C05 fns=TTYEncoder::encode,TTYEncoder::kitty_level | encode never panics / overflows: palette colour query with any index, under every capability setting
+#[kani::proof]
+#[kani::unwind(4)]
+fn c05_nopanic_color_query() {
+    let mut enc = TTYEncoder::new(any_caps());
+    let mut out = Sink::new();
+    let r = enc.encode(&mut out, TerminalCommand::Color { name: TerminalColor::Palette(kani::any()), color: None });
+    assert!(r.is_ok());
+    kani::cover!(true);
+}
+
+//# kind=complete tier=quick props=C05 fns=TTYEncoder::encode | CursorGet is emitted as exactly its ECMA-48/xterm byte sequence (DSR 6 (report cursor position)) under every capability setting
 #[kani::proof]
 #[kani::unwind(12)]
-fn c05_literal_sequences() {
+fn c05_literal_cursor_get() {
     let mut enc = TTYEncoder::new(any_caps());
     let mut out = Sink::new();
-    let k: u8 = kani::any();
-    kani::assume(k < 9);
-    let (cmd, want) = literal_cmd(k);
-    assert!(enc.encode(&mut out, cmd).is_ok());
-    assert!(out.fmt_calls == 0);
-    assert!(out.len == want.len());
+    let want: &[u8] = b"\x1b[6n";
+    assert!(enc.encode(&mut out, TerminalCommand::CursorGet).is_ok());
+    assert!(out.fmt_calls == 0 && out.len == want.len());
     let mut i = 0;
     while i < want.len() { assert!(out.bytes[i] == want[i]); i += 1; }
-    kani::cover!(k == 7);
+    kani::cover!(true);
+}
+
+//# kind=complete tier=quick props=C05 fns=TTYEncoder::encode | CursorSave is emitted as exactly its ECMA-48/xterm byte sequence (DECSC) under every capability setting
+#[kani::proof]
+#[kani::unwind(12)]
+fn c05_literal_cursor_save() {
+    let mut enc = TTYEncoder::new(any_caps());
+    let mut out = Sink::new();
+    let want: &[u8] = b"\x1b7";
+    assert!(enc.encode(&mut out, TerminalCommand::CursorSave).is_ok());
+    assert!(out.fmt_calls == 0 && out.len == want.len());
+    let mut i = 0;
+    while i < want.len() { assert!(out.bytes[i] == want[i]); i += 1; }
+    kani::cover!(true);
+}
+
+//# kind=complete tier=quick props=C05 fns=TTYEncoder::encode | CursorRestore is emitted as exactly its ECMA-48/xterm byte sequence (DECRC) under every capability setting
+#[kani::proof]
+#[kani::unwind(12)]
+fn c05_literal_cursor_restore() {
+    let mut enc = TTYEncoder::new(any_caps());
+    let mut out = Sink::new();
+    let want: &[u8] = b"\x1b8";
+    assert!(enc.encode(&mut out, TerminalCommand::CursorRestore).is_ok());
+    assert!(out.fmt_calls == 0 && out.len == want.len());
+    let mut i = 0;
+    while i < want.len() { assert!(out.bytes[i] == want[i]); i += 1; }
+    kani::cover!(true);
+}
+
+//# kind=complete tier=quick props=C05 fns=TTYEncoder::encode | EraseLineRight is emitted as exactly its ECMA-48/xterm byte sequence (EL 0) under every capability setting
+#[kani::proof]
+#[kani::unwind(12)]
+fn c05_literal_erase_line_right() {
+    let mut enc = TTYEncoder::new(any_caps());
+    let mut out = Sink::new();
+    let want: &[u8] = b"\x1b[K";
+    assert!(enc.encode(&mut out, TerminalCommand::EraseLineRight).is_ok());
+    assert!(out.fmt_calls == 0 && out.len == want.len());
+    let mut i = 0;
+    while i < want.len() { assert!(out.bytes[i] == want[i]); i += 1; }
+    kani::cover!(true);
+}
+
+//# kind=complete tier=quick props=C05 fns=TTYEncoder::encode | EraseLineLeft is emitted as exactly its ECMA-48/xterm byte sequence (EL 1) under every capability setting
+#[kani::proof]
+#[kani::unwind(12)]
+fn c05_literal_erase_line_left() {
+    let mut enc = TTYEncoder::new(any_caps());
+    let mut out = Sink::new();
+    let want: &[u8] = b"\x1b[1K";
+    assert!(enc.encode(&mut out, TerminalCommand::EraseLineLeft).is_ok());
+    assert!(out.fmt_calls == 0 && out.len == want.len());
+    let mut i = 0;
+    while i < want.len() { assert!(out.bytes[i] == want[i]); i += 1; }
+    kani::cover!(true);
+}
+
+//# kind=complete tier=quick props=C05 fns=TTYEncoder::encode | EraseLine is emitted as exactly its ECMA-48/xterm byte sequence (EL 2) under every capability setting
+#[kani::proof]
+#[kani::unwind(12)]
+fn c05_literal_erase_line() {
+    let mut enc = TTYEncoder::new(any_caps());
+    let mut out = Sink::new();
+    let want: &[u8] = b"\x1b[2K";
+    assert!(enc.encode(&mut out, TerminalCommand::EraseLine).is_ok());
+    assert!(out.fmt_calls == 0 && out.len == want.len());
+    let mut i = 0;
+    while i < want.len() { assert!(out.bytes[i] == want[i]); i += 1; }
+    kani::cover!(true);
+}
+
+//# kind=complete tier=quick props=C05 fns=TTYEncoder::encode | EraseScreen is emitted as exactly its ECMA-48/xterm byte sequence (ED 2) under every capability setting
+#[kani::proof]
+#[kani::unwind(12)]
+fn c05_literal_erase_screen() {
+    let mut enc = TTYEncoder::new(any_caps());
+    let mut out = Sink::new();
+    let want: &[u8] = b"\x1b[2J";
+    assert!(enc.encode(&mut out, TerminalCommand::EraseScreen).is_ok());
+    assert!(out.fmt_calls == 0 && out.len == want.len());
+    let mut i = 0;
+    while i < want.len() { assert!(out.bytes[i] == want[i]); i += 1; }
+    kani::cover!(true);
+}
+
+//# kind=complete tier=quick props=C05 fns=TTYEncoder::encode | FaceGet is emitted as exactly its ECMA-48/xterm byte sequence (DECRQSS for SGR) under every capability setting
+#[kani::proof]
+#[kani::unwind(12)]
+fn c05_literal_face_get() {
+    let mut enc = TTYEncoder::new(any_caps());
+    let mut out = Sink::new();
+    let want: &[u8] = b"\x1bP$qm\x1b\\";
+    assert!(enc.encode(&mut out, TerminalCommand::FaceGet).is_ok());
+    assert!(out.fmt_calls == 0 && out.len == want.len());
+    let mut i = 0;
+    while i < want.len() { assert!(out.bytes[i] == want[i]); i += 1; }
+    kani::cover!(true);
+}
+
+//# kind=complete tier=quick props=C05 fns=TTYEncoder::encode | Reset is emitted as exactly its ECMA-48/xterm byte sequence (RIS) under every capability setting
+#[kani::proof]
+#[kani::unwind(12)]
+fn c05_literal_reset() {
+    let mut enc = TTYEncoder::new(any_caps());
+    let mut out = Sink::new();
+    let want: &[u8] = b"\x1bc";
+    assert!(enc.encode(&mut out, TerminalCommand::Reset).is_ok());
+    assert!(out.fmt_calls == 0 && out.len == want.len());
+    let mut i = 0;
+    while i < want.len() { assert!(out.bytes[i] == want[i]); i += 1; }
+    kani::cover!(true);
 }
 
 // minimal SGR splitter for attribute-only sequences: ESC [ p1 ; p2 ; ... m  with p in {digits, "4:d"}
@@ -146,7 +315,7 @@ fn style_code(u: UnderlineStyle) -> u8 {
     match u { UnderlineStyle::None => 0, UnderlineStyle::Straight => 1, UnderlineStyle::Double => 2, UnderlineStyle::Curly => 3, UnderlineStyle::Dotted => 4, UnderlineStyle::Dashed => 5 }
 }
 
-//# kind=complete tier=quick props=C05 fns=TTYEncoder::encode,Chunks::push,Chunks::drain | Face without colours encodes to one well-formed SGR sequence that starts with 0 (reset) and selects exactly the requested attributes: 1 bold, 3 italic, 5 blink, 7 reverse, 9 strike, 4 / 4:n underline style - nothing else (all 6 x 32 attribute sets, all capability settings)
+//# kind=complete tier=thorough props=C05 fns=TTYEncoder::encode,Chunks::push,Chunks::drain | Face without colours encodes to one well-formed SGR sequence that starts with 0 (reset) and selects exactly the requested attributes: 1 bold, 3 italic, 5 blink, 7 reverse, 9 strike, 4 / 4:n underline style - nothing else (all 6 x 32 attribute sets, all capability settings)
 #[kani::proof]
 #[kani::unwind(26)]
 fn c05_face_attrs_sgr() {
@@ -173,7 +342,7 @@ fn c05_face_attrs_sgr() {
 
 fn any_opt_bool() -> Option<bool> { if kani::any() { Some(kani::any()) } else { None } }
 
-//# kind=complete tier=quick props=C05,C06 fns=TTYEncoder::encode,Chunks::push,Chunks::drain | FaceModify without colours encodes to nothing (empty change) or one well-formed SGR sequence that selects exactly: 0 iff reset; 1/22 bold on/off, 3/23 italic, 5/25 blink, 9/29 strike; 4, 4:n or 24 for the underline style - each only if requested (standard ECMA-48 codes: 22, not 21, turns bold off)
+//# kind=complete tier=thorough props=C05,C06 fns=TTYEncoder::encode,Chunks::push,Chunks::drain | FaceModify without colours encodes to nothing (empty change) or one well-formed SGR sequence that selects exactly: 0 iff reset; 1/22 bold on/off, 3/23 italic, 5/25 blink, 9/29 strike; 4, 4:n or 24 for the underline style - each only if requested (standard ECMA-48 codes: 22, not 21, turns bold off)
 #[kani::proof]
 #[kani::unwind(26)]
 fn c05_face_modify_attrs_sgr() {
